@@ -19,6 +19,7 @@ import (
 	"os/exec"
 	"path/filepath"
 	"sort"
+	"strconv"
 	"strings"
 
 	"golang.org/x/tools/go/packages"
@@ -88,6 +89,7 @@ func main() {
 	chainConfigFacts(byPath[mod+"x/evm/types"])
 	cpcExecutorWrites(byPath[mod+"x/cpc/keeper"])
 	stakingExecutorFacts(byPath[mod+"x/cpc/keeper"])
+	cryptoFacts(byPath[mod+"crypto/ethsecp256k1"], byPath[mod+"ethereum/eip712"], byPath[mod+"x/cpc/eip712"])
 	indexerFacts(byPath[mod+"indexer"], byPath[mod+"server"])
 
 	// the pinned fork (module cache)
@@ -1095,4 +1097,214 @@ func returnsError(b *ast.BlockStmt) bool {
 	}
 	id, ok := rs.Results[0].(*ast.Ident)
 	return ok && id.Name == "nil" && exprStringDeep(rs.Results[1]) != "nil"
+}
+
+// ---------------------------------------------------------------------------------------------
+// crypto (C19): the shape of VerifySignature, the fixed EIP-712 type table and domain, the constants of the
+// type generation.
+
+func returnExprs(fd *ast.FuncDecl) []string {
+	var out []string
+	if fd == nil || fd.Body == nil {
+		return out
+	}
+	ast.Inspect(fd.Body, func(n ast.Node) bool {
+		if _, ok := n.(*ast.FuncLit); ok {
+			return false
+		}
+		if rs, ok := n.(*ast.ReturnStmt); ok {
+			var parts []string
+			for _, r := range rs.Results {
+				parts = append(parts, exprFull(r))
+			}
+			out = append(out, strings.Join(parts, ", "))
+		}
+		return true
+	})
+	return out
+}
+
+func ifConds(fd *ast.FuncDecl) []string {
+	var out []string
+	if fd == nil || fd.Body == nil {
+		return out
+	}
+	ast.Inspect(fd.Body, func(n ast.Node) bool {
+		if is, ok := n.(*ast.IfStmt); ok {
+			out = append(out, exprFull(is.Cond))
+		}
+		return true
+	})
+	return out
+}
+
+func unquote(s string) string {
+	if u, err := strconv.Unquote(s); err == nil {
+		return u
+	}
+	return s
+}
+
+func cryptoFacts(keyPkg, eipPkg, cpcEipPkg *packages.Package) {
+	if keyPkg == nil || eipPkg == nil || cpcEipPkg == nil {
+		fail("crypto packages not loaded")
+		return
+	}
+	facts["verifySignatureReturns"] = returnExprs(findMethod(keyPkg, "PubKey", "VerifySignature"))
+	facts["verifyAsEIP712Returns"] = returnExprs(findMethod(keyPkg, "PubKey", "verifySignatureAsEIP712"))
+	ec := findMethod(keyPkg, "PubKey", "verifySignatureECDSA")
+	facts["verifyECDSAReturns"] = returnExprs(ec)
+	facts["verifyECDSAConds"] = ifConds(ec)
+	facts["addressCalls"] = callsIn(findMethod(keyPkg, "PubKey", "Address"))
+	for _, cn := range []string{"PrivKeySize", "PubKeySize"} {
+		if v, ok := constValue(keyPkg, cn); ok {
+			n, _ := constant.Int64Val(v)
+			facts["ethsecp256k1_"+cn] = n
+		} else {
+			fail("constant %s not found", cn)
+		}
+	}
+	consts := []string{}
+	for _, cn := range []string{"rootPrefix", "typePrefix", "txField", "ethBool", "ethInt64", "ethString", "msgTypeField", "maxDuplicateTypeDefs", "payloadMsgsField"} {
+		if v, ok := constValue(eipPkg, cn); ok {
+			consts = append(consts, cn+"="+unquote(v.ExactString()))
+		} else {
+			fail("constant %s not found", cn)
+		}
+	}
+	facts["eip712Consts"] = consts
+	// the composite literal of createEIP712Types
+	var table []string
+	if fd, _ := findFunc(eipPkg, "createEIP712Types"); fd != nil {
+		ast.Inspect(fd.Body, func(n ast.Node) bool {
+			cl, ok := n.(*ast.CompositeLit)
+			if !ok || exprString(cl.Type) != "apitypes.Types" {
+				return true
+			}
+			for _, el := range cl.Elts {
+				kv, ok := el.(*ast.KeyValueExpr)
+				if !ok {
+					continue
+				}
+				row := unquote(exprStringDeep(kv.Key)) + ":"
+				if inner, ok := kv.Value.(*ast.CompositeLit); ok {
+					var ms []string
+					for _, m := range inner.Elts {
+						ml, ok := m.(*ast.CompositeLit)
+						if !ok {
+							continue
+						}
+						name, ty := "", ""
+						for _, f := range ml.Elts {
+							if fkv, ok := f.(*ast.KeyValueExpr); ok {
+								switch exprString(fkv.Key) {
+								case "Name":
+									name = unquote(exprStringDeep(fkv.Value))
+								case "Type":
+									ty = unquote(exprStringDeep(fkv.Value))
+								}
+							}
+						}
+						ms = append(ms, name+" "+ty)
+					}
+					row += strings.Join(ms, ",")
+				}
+				table = append(table, row)
+			}
+			return false
+		})
+	}
+	if len(table) == 0 {
+		fail("createEIP712Types literal not found")
+	}
+	facts["eip712FixedTypes"] = table
+	var dom []string
+	if fd, _ := findFunc(eipPkg, "createEIP712Domain"); fd != nil {
+		ast.Inspect(fd.Body, func(n ast.Node) bool {
+			cl, ok := n.(*ast.CompositeLit)
+			if !ok || exprString(cl.Type) != "apitypes.TypedDataDomain" {
+				return true
+			}
+			for _, el := range cl.Elts {
+				if kv, ok := el.(*ast.KeyValueExpr); ok {
+					dom = append(dom, exprString(kv.Key)+"="+unquote(exprStringDeep(kv.Value)))
+				}
+			}
+			return false
+		})
+	}
+	facts["eip712Domain"] = dom
+	if fd, _ := findFunc(eipPkg, "sortedJSONKeys"); fd != nil {
+		var cmp []string
+		ast.Inspect(fd.Body, func(n ast.Node) bool {
+			if fl, ok := n.(*ast.FuncLit); ok {
+				for _, st := range fl.Body.List {
+					if rs, ok := st.(*ast.ReturnStmt); ok && len(rs.Results) == 1 {
+						cmp = append(cmp, exprFull(rs.Results[0]))
+					}
+				}
+			}
+			return true
+		})
+		facts["eip712KeyOrder"] = cmp
+	}
+	if fd, _ := findFunc(eipPkg, "GetEIP712TypedDataForMsg"); fd != nil {
+		facts["eip712DecodeOrder"] = ifConds(fd)
+	}
+	// x/cpc/eip712.VerifySignature: what it hashes and what it compares
+	if fd, _ := findFunc(cpcEipPkg, "VerifySignature"); fd != nil {
+		var calls []string
+		for _, c := range callsIn(fd) {
+			if strings.HasPrefix(c, "crypto.") || c == "EIP712HashingTypedMessage" {
+				calls = append(calls, c)
+			}
+		}
+		facts["cpcVerifyCalls"] = calls
+		var assigns []string
+		ast.Inspect(fd.Body, func(n ast.Node) bool {
+			if as, ok := n.(*ast.AssignStmt); ok && len(as.Lhs) == 1 && exprString(as.Lhs[0]) == "match" {
+				assigns = append(assigns, exprFull(as.Rhs[0]))
+			}
+			return true
+		})
+		facts["cpcVerifyMatch"] = assigns
+	}
+}
+
+// exprFull renders an expression completely (nested calls keep their arguments).
+func exprFull(e ast.Expr) string {
+	switch t := e.(type) {
+	case *ast.BasicLit:
+		return t.Value
+	case *ast.Ident:
+		return t.Name
+	case *ast.SelectorExpr:
+		return exprFull(t.X) + "." + t.Sel.Name
+	case *ast.CallExpr:
+		var as []string
+		for _, a := range t.Args {
+			as = append(as, exprFull(a))
+		}
+		return exprFull(t.Fun) + "(" + strings.Join(as, ",") + ")"
+	case *ast.BinaryExpr:
+		return exprFull(t.X) + t.Op.String() + exprFull(t.Y)
+	case *ast.UnaryExpr:
+		return t.Op.String() + exprFull(t.X)
+	case *ast.IndexExpr:
+		return exprFull(t.X) + "[" + exprFull(t.Index) + "]"
+	case *ast.SliceExpr:
+		lo, hi := "", ""
+		if t.Low != nil {
+			lo = exprFull(t.Low)
+		}
+		if t.High != nil {
+			hi = exprFull(t.High)
+		}
+		return exprFull(t.X) + "[" + lo + ":" + hi + "]"
+	case *ast.ParenExpr:
+		return "(" + exprFull(t.X) + ")"
+	case *ast.StarExpr:
+		return "*" + exprFull(t.X)
+	}
+	return exprString(e)
 }
